@@ -243,6 +243,20 @@ Theorem C18_parser_is_chan_consumer :
 Proof. exact ChanConsumerFile.ro_chan_soy_file. Qed.
 Print Assumptions C18_parser_is_chan_consumer.
 
+(* the same for parse.Expr (soy_expr, the repaired entry point: drained on every return), hence for every line of
+   soy.ParseGlobals *)
+Theorem C18_expr_parser_is_chan_consumer :
+  forall inlen (p : prod tok) sched F k r0,
+  items_wf inlen (items p) -> (length (items p) + 8 <= F)%nat -> (length (items p) + 4 <= k)%nat ->
+  g_cons (run zero_tok sched (cfg_init p (ChanConsumer.ro_expr_prog inlen true F k))) = CRet r0 ->
+  match po_result (soy_expr inlen (items p)), r0 with
+  | POk a q, POk a' q' => a = a' /\ ChanConsumer.ro_pclear q = q'
+  | PErr t c q, PErr t' c' q' => t = t' /\ c = c' /\ ChanConsumer.ro_pclear q = q'
+  | _, _ => False
+  end.
+Proof. exact ChanConsumerFile.ro_chan_soy_expr. Qed.
+Print Assumptions C18_expr_parser_is_chan_consumer.
+
 (* and for that program -- the parser, not a stand-in built from its record -- the record parse_file reports for
    its own scanner is what happened on the channel, and Parser.scan_done of it says exactly whether the scanner
    goroutine exits *)
